@@ -3,6 +3,8 @@ package props
 import (
 	"fmt"
 	"os"
+	"regexp"
+	"strconv"
 	"strings"
 
 	"github.com/compose-spec/compose-go/v2/loader"
@@ -19,7 +21,7 @@ type c08 struct{}
 func (c08) ID() string    { return "C08" }
 func (c08) Level() string { return "exploration" }
 func (c08) Rule() string {
-	return "shape: in each of the three full corpus documents and in the `wide` document (collections of 12..18 entries, typed attributes inside list items at positions 0..11) EVERY scalar leaf in turn is replaced by ${V}, ${UNSET:-literal} and (strings) pre${V}post with the matching environment and the result compared with the literal document, the ${UNSET:-literal} form also delivered as an override file and as a later document after an include whose project has an env_file and a .env defining the variable differently; mapping keys containing ${V} stay literal; every document with $ doubled and interpolation on equals the document with interpolation off, also when the text lives in an override, an extended base, an included or nested-included file, or a second document. types: every typed position of the schema below services/networks/volumes/secrets/configs (boolean, integer, number; read from /repo/schema/compose-spec.json at run time) that admits a string, under three shapes of the user-defined name (plain, x-prefixed, dotted), plus duration and byte-size attributes, x valid texts (incl. YAML-1.1 booleans) x invalid texts: the variable form gives the literal's typed value while the same text at two untyped positions of the document (walked before and after) stays a string, an invalid text is an error naming the attribute. distinct = distinct (position, form) pairs"
+	return "shape: in each of the three full corpus documents and in the `wide` document (collections of 12..18 entries, typed attributes inside list items at positions 0..11) EVERY scalar leaf in turn is replaced by ${V}, ${UNSET:-literal} and (strings) pre${V}post with the matching environment and the result compared with the literal document, the ${UNSET:-literal} form also delivered as an override file and as a later document after an include whose project has an env_file and a .env defining the variable differently; mapping keys containing ${V} stay literal; a document handed over parsed (ConfigFile.Config) and loaded twice under two environments gives, the second time, what a fresh parse gives; every document with $ doubled and interpolation on equals the document with interpolation off, also when the text lives in an override, an extended base, an included or nested-included file, or a second document. types: every typed position of the schema below services/networks/volumes/secrets/configs (boolean, integer, number; read from /repo/schema/compose-spec.json at run time) that admits a string, under three shapes of the user-defined name (plain, x-prefixed, dotted), plus duration and byte-size attributes, x valid texts (incl. YAML-1.1 booleans) x invalid texts: the variable form gives the literal's typed value while the same text at two untyped positions of the document (walked before and after) stays a string, an invalid text is an error naming the attribute. distinct = distinct (position, form) pairs"
 }
 func (c08) Assumptions() []string {
 	return []string{
@@ -304,6 +306,63 @@ func (c08) Run(c *core.Ctx) {
 				return core.Outcome{Class: "diff", Viol: &core.Violation{Key: "doubled-dollar-differs:" + name, Msg: fmt.Sprintf("%s: $$-escaped files with interpolation differ from the originals without: %s", name, trunc(d, 500))}}
 			}
 			return core.Outcome{Class: "dollar/multi/" + name}
+		})
+	}
+	// a caller may hand the loader a document it parsed itself (ConfigFile.Config) and load it again later under another
+	// environment: what the second load sees is the document, not what the first load substituted into it
+	for _, dn := range []string{"rich", "rich2", "rich3", "operators", "kv-shapes", "typed-strings"} {
+		dn := dn
+		base := corpus[dn]
+		if base == nil {
+			continue
+		}
+		c.Do("parsed-twice/"+dn, func() core.Outcome {
+			text := base.Files["compose.yaml"]
+			env1 := map[string]string{}
+			env2 := map[string]string{}
+			for k, v := range base.Env {
+				env1[k] = v
+				env2[k] = v + "2"
+				if _, err := strconv.Atoi(v); err == nil {
+					env2[k] = v + "0" // stay a number where the document wants one
+				}
+			}
+			for _, m := range regexp.MustCompile(`\$\{([A-Z_][A-Z0-9_]*)`).FindAllStringSubmatch(text, -1) {
+				if _, ok := env1[m[1]]; !ok {
+					env2[m[1]] = "7"
+				}
+			}
+			loadParsed := func(doc map[string]any, env map[string]string) (*types.Project, error) {
+				s := &Scn{Files: base.Files, Main: []string{"compose.yaml"}, Env: env}
+				root := s.Materialise()
+				cd := s.Details(root)
+				cd.ConfigFiles[0].Config = doc
+				p, err := s.LoadDetails(cd, true)
+				if err == nil {
+					p = relocate(p)
+				}
+				return p, err
+			}
+			shared := yamlToMap(text)
+			if _, err := loadParsed(shared, env1); err != nil {
+				return core.Outcome{Class: "first-load-rejected", Trivial: true}
+			}
+			got, err1 := loadParsed(shared, env2)
+			want, err2 := loadParsed(yamlToMap(text), env2)
+			sample := map[string]any{"doc": dn, "env1": env1, "env2": env2}
+			if pe, ok := err1.(*core.PanicError); ok {
+				return core.Outcome{Class: "panic", Sample: sample, Viol: &core.Violation{Key: "panic@" + pe.Site, Msg: "parsed-twice/" + dn + ": " + pe.Error(), Detail: pe.Stack}}
+			}
+			if (err1 == nil) != (err2 == nil) {
+				return core.Outcome{Class: "diff", Sample: sample, Viol: &core.Violation{Key: "parsed-document-reused:outcome", Msg: fmt.Sprintf("parsed-twice/%s: loading the parsed document a second time gives %v, a fresh parse gives %v", dn, err1, err2)}}
+			}
+			if err1 == nil {
+				if d := ProjectDiff(want, got); d != "" {
+					return core.Outcome{Class: "diff", Sample: sample, Viol: &core.Violation{Key: "parsed-document-reused:stale-values",
+						Msg: fmt.Sprintf("parsed-twice/%s: the second load of a parsed document (other environment) differs from a load of a fresh parse: %s", dn, trunc(d, 500))}}
+				}
+			}
+			return core.Outcome{Class: "parsed-twice/" + dn, Sample: sample}
 		})
 	}
 	// mapping keys are not interpolated
